@@ -43,7 +43,7 @@ sel_strategy = st.tuples(
 
 @st.composite
 def cases(draw):
-    doc = draw(D.documents(D.profile('full')))
+    doc = draw(D.documents(D.profile('full', hidden_bars=True)))
     sels = [list(draw(sel_strategy)) for _ in range(10)]
     return {'doc': doc, 'sels': sels}
 
